@@ -58,6 +58,9 @@ def corrupt(rng, wire, graft_pool):
             ops += ["attr_name"]  # a scalar replaced by text that names an attribute every class has (never a value of it)
         if isinstance(node, str):
             ops += ["pad", "pad"]  # blanks or a newline around the text: other text (a Literal or Enum lists exact members)
+            ops += ["as_buffer", "as_buffer"]  # the text held in a writable buffer / a view: a bytes position builds its own bytes from it
+        if isinstance(node, dict) and "$b" in node:
+            ops += ["as_buffer"] * 4
         if isinstance(node, dict) and "$dict" in node:
             ops += ["add_key", "add_key"]
             if node["$dict"]:
@@ -92,6 +95,9 @@ def corrupt(rng, wire, graft_pool):
         elif op == "pad":
             padded = rng.choice([" ", "\n", "\t", ""]) + node + rng.choice(["\n", " ", "\r\n", "  "])
             w = _set(w, path, padded if rng.random() < 0.7 else {"$b": padded.encode().hex()})
+        elif op == "as_buffer":
+            hx = node["$b"] if isinstance(node, dict) else node.encode().hex()
+            w = _set(w, path, {rng.choice(["$ba", "$mv", "$mvw"]): hx})
         elif op == "attr_name":
             name = rng.choice(ATTR_NAMES)
             w = _set(w, path, name if rng.random() < 0.7 else {"$b": name.encode().hex()})
@@ -234,6 +240,17 @@ class C03(PropBase):
                     if txt is not None:
                         x = hist.carry(txt, rng.choice(["str", "bytes"]))
                 steps.append({"op": "unmarshal", "t": t, "mod": rng.choice(mods), "x": x, "f12": ["member-rejected:" + d["reject"].get("exc", "ValueError")], "clean": None})
+                continue
+            if 0.82 < r <= 0.86:
+                # binary input that is not `bytes` (a writable buffer, a view) at a position whose type is bytes:
+                # the result holds bytes objects of its own there
+                hx = rng.choice(["abc", "", "[1, 2]", "h\u00e9", "2020-01-01"]).encode().hex()
+                buf = {rng.choice(["$ba", "$mv", "$mvw", "$mvs"]): hx}
+                bt = {"k": "bytes"}
+                t, x = rng.choice([(bt, buf), ({"k": "list", "a": bt}, {"$list": [buf, {"$b": hx}]}), ({"k": "dict", "a": [{"k": "str"}, bt]}, {"$dict": [["k", buf]]}),
+                                   ({"k": "union", "sp": "optional", "a": [bt, {"k": "none"}]}, buf), ({"k": "tuple", "a": [{"k": "int"}, bt]}, {"$list": [1, buf]}),
+                                   ({"k": "union", "sp": "typing", "a": [{"k": "int"}, bt]}, buf)])
+                steps.append({"op": "unmarshal", "t": t, "mod": rng.choice(mods), "x": x, "f12": ["buffer-at-bytes-position"], "clean": None})
                 continue
             if twins is not None and 0.86 < r <= 0.90:
                 legacy = {"$dict": [["value", "10"], ["next", {"$dict": [["value", "20"], ["next", {"$dict": [["value", 30]]}]]}]]}
